@@ -355,6 +355,13 @@ func runLockOrder(c *h.Ctx, withString bool) {
 				cl("env_call_without_lock_operation_" + out.noLock)
 			}
 			if _, ok := explain(tc.Prog, out.results, out.final); !ok {
+				if n := parentDeleteHazard(tc.Prog); n != "" {
+					// a delete-nearest that can reach the PARENT's binding of a name whose presence in the shared
+					// table changes meanwhile: the parent is written (the statement quantifies over a read-only
+					// parent) and the walk consults two scopes one after the other, as (a) explains for define-global
+					o.Excluded = "lockorder: delete-nearest of a parent-bound name whose presence in the shared table changes (the parent is not read-only then)"
+					return nil
+				}
 				sig := "C13|not-sequentially-consistent"
 				if foreignBinding(tc.Prog, out.final) {
 					sig += "|final-state-binds-what-no-operation-wrote"
@@ -369,4 +376,30 @@ func runLockOrder(c *h.Ctx, withString bool) {
 	c.Extra("c13_lockorder_lock_operations_observed", hookOps)
 	c.Extra("c13_lockorder_scheduling_decisions", decisions)
 	c.Extra("c13_lockorder_preemptions", preempts)
+}
+
+// parentDeleteHazard names a value the parent binds which some thread deletes by a delete-nearest form (on the shared
+// scope, through its child, through the module or the module's child) while a define or delete of the same name on the
+// shared scope changes whether the walk stops there. Outside the statement's domain ("with a read-only parent").
+func parentDeleteHazard(p Prog) string {
+	for _, n := range p.ParentVals {
+		walker, presence := false, false
+		for _, th := range p.Threads {
+			for _, op := range th {
+				if op.N != n {
+					continue
+				}
+				switch op.K {
+				case "delnear", "cdelnear", "mdelnear", "mcdelnear":
+					walker = true
+				case "define", "definev", "delete", "cdefine":
+					presence = true
+				}
+			}
+		}
+		if walker && presence {
+			return n
+		}
+	}
+	return ""
 }
